@@ -44,7 +44,7 @@ def histories(tier, rng):
                     add(n, mode, 0, False, [L, S(), F2(1, r, n, r2), S(), ST, U])
                     add(n, mode, 0, False, [L, S(), F2(n, r, 1, r2), S(), SF])
     add(2, "temp", 0, False, [S(), ST, U, L, U, L, S(), U, ST, U])
-    for _ in range(40 if tier == "quick" else 800):
+    for _ in range(40 if tier == "quick" else 1600):
         n = rng.choice([1, 2, 3, 4]); mode = rng.choice(MODES)
         ops = [L]
         for _ in range(rng.randint(3, 12)):
